@@ -294,7 +294,8 @@ def step (s : Sess) (c : Cmd) : Sess × String × String :=
         let r := foreachZipM a1 a2 m
         let scb := (xs.zip ys).map fun p => (p.1, some p.2)
         lines (hdr none none none (some (fmtCb scb true))) (hdr none none none (some (fmtCb r.1 true))) { s with mem := r.2 }
-    | _, _, _, _ => simple s "st=- noobj"
+    | _, _, _, _ =>
+      if c.op == "zit_new" then simple { s with zit := none, szit := none } "st=- noobj" else simple s "st=- noobj"
   | _ =>
   match getSlot s.model k, getSlot s.spec k with
   | some a, some xs =>
@@ -366,6 +367,6 @@ def step (s : Sess) (c : Cmd) : Sess × String × String :=
                       it := if keepIt then s.it else none, sit := if keepIt then s.sit else none,
                       zit := if keepZ then s.zit else none, szit := if keepZ then s.szit else none } "st=-"
     | _ => simple s "st=- badop"
-  | _, _ => simple s "st=- noobj"
+  | _, _ => if c.op == "it_new" then simple { s with it := none, sit := none } "st=- noobj" else simple s "st=- noobj"
 
 end CC.Driver.ArraySizedD
